@@ -25,8 +25,8 @@ PROP = "C27"
 META = {
     "level": "exploration",
     "technique": "RFC 7233 single-range arithmetic + strict Range grammar + 304 decision table compared with the delimited response (status, Content-Range, Content-Length, body), GET vs HEAD pairing",
-    "level_text": "For files of 0/1/2/10/255/70000 bytes, Range strings from a grammar of valid specs (positions around 0, size-1, size, size+1, 10^20; suffix lengths 0,1,size,size+1) and invalid ones (signs, inner spaces, underscores, NBSP, hex, floats, double dashes, other units, multiple ranges) crossed with If-None-Match / If-Modified-Since variants are requested with GET and HEAD through the real server. Every response must be one of: 200 + whole file, 206 + exact Content-Range + exactly those bytes, 416 + 'bytes */size', 304 without body; Content-Length must frame the body; a syntactically invalid Range must change nothing; HEAD must equal GET minus body. In history cases a path is rewritten between requests (2-4 versions of different length, content and mtime, in place or by atomic rename, first request after a rewrite being any of whole-file/range/suffix/conditional GET or HEAD) and the same oracle is applied with the current content, size, mtime and ETag.",
-    "level_note": "Trusts the strict Range regex and 20-line range arithmetic. Not judged (executed, internal consistency only): unit spelled in another case, empty list elements ('bytes=0-1,'), whether an unsatisfiable or inverted range is answered 416 or ignored (both accepted), a server ignoring a valid range (200 + whole file accepted), obsolete date formats, malformed If-None-Match lists. Non-ASCII digits cannot reach int() through a latin-1 header and are only exercised as bytes.",
+    "level_text": "For files of 0/1/2/10/255/70000 bytes, Range strings from a grammar of valid specs (positions around 0, size-1, size, size+1, 10^20, and positions / suffix lengths written with 600 to 20000 digits, i.e. around and beyond the interpreter's 4300-digit int conversion limit, with and without leading zeros; suffix lengths 0,1,size,size+1) and invalid ones (signs, inner spaces, underscores, NBSP, hex, floats, double dashes, other units, multiple ranges) crossed with If-None-Match / If-Modified-Since variants are requested with GET and HEAD through the real server. Every response must be one of: 200 + whole file, 206 + exact Content-Range + exactly those bytes, 416 + 'bytes */size', 304 without body; Content-Length must frame the body; a syntactically invalid Range must change nothing; HEAD must equal GET minus body. In history cases a path is rewritten between requests (2-4 versions of different length, content and mtime, in place or by atomic rename, first request after a rewrite being any of whole-file/range/suffix/conditional GET or HEAD) and the same oracle is applied with the current content, size, mtime and ETag.",
+    "level_note": "Trusts the strict Range regex and 20-line range arithmetic. Not judged (executed, internal consistency only): a bare number without '-' ('bytes=26': the repository's own tests rely on it being honoured as '26-'), unit spelled in another case, empty list elements ('bytes=0-1,'), whether an unsatisfiable or inverted range is answered 416 or ignored (both accepted), a server ignoring a valid range (200 + whole file accepted), obsolete date formats, malformed If-None-Match lists. Non-ASCII digits cannot reach int() through a latin-1 header and are only exercised as bytes.",
     "design_ref": "DESIGN.md §4 C27",
     "engine": "wire",
 }
@@ -40,7 +40,8 @@ ASSUMPTIONS = ["strict single-range grammar = RFC 7233 byte-ranges-specifier wit
 REQUIRED_COUNTERS = ["oracle_evals", "range_valid_evals", "range_invalid_evals", "expect_304_evals", "head_pair_evals",
                      "status_206", "status_416", "status_304", "safety_evals", "history_cases", "history_rewrites",
                      "history_requests_after_rewrite", "history_size_changed_evals", "history_first_after_rewrite_ranged",
-                     "history_first_after_rewrite_head", "history_stale_validator_evals"]
+                     "history_first_after_rewrite_head", "history_stale_validator_evals", "huge_digit_range_evals",
+                     "huge_over_4300_digits_strict_valid", "huge_over_4300_digits_other"]
 
 SIZES = [0, 1, 2, 10, 255, 70000]
 MTIME = 1600000000
@@ -78,10 +79,55 @@ def _pos(rng, n):
     return rng.choice([0, 0, 1, 2, n - 2, n - 1, n, n + 1, 2 * n, n // 2, 9, 10 ** 20, rng.randint(0, max(n, 1))])
 
 
+# Digit strings around and beyond the interpreter's int<->str conversion limit (sys.get_int_max_str_digits(),
+# 4300 by default, may be configured lower or off): syntactically these are ordinary 1*DIGIT positions.  They are
+# built as strings (the generator itself must not convert them) and stay inside the 64 KiB header limit.
+HUGE_LENS = [640, 641, 1000, 4299, 4300, 4301, 4302, 4400, 5000, 9000, 20000]
+
+
+def _huge_digits(rng, n):
+    L = rng.choice(HUGE_LENS) if rng.random() < 0.8 else rng.randint(600, 12000)
+    k = rng.random()
+    if k < 0.3:
+        return "9" * L
+    if k < 0.5:
+        return "1" + "0" * (L - 1)
+    if k < 0.75:
+        # a small value written with that many digits (leading zeros)
+        small = str(max(0, _pos(rng, n)) % 100000)
+        return "0" * max(1, L - len(small)) + small
+    return rng.choice("123456789") + "".join(rng.choice("0123456789") for _ in range(L - 1))
+
+
+def gen_huge_range(rng, n):
+    """Range values whose first-byte-pos / last-byte-pos / suffix-length has hundreds to thousands of digits, in
+    valid shapes and spliced into the invalid ones."""
+    H = lambda: _huge_digits(rng, n)                                    # noqa: E731
+    P = lambda: str(max(0, _pos(rng, n)))                               # noqa: E731
+    k = rng.random()
+    if k < 0.2:
+        return "bytes=%s-%s" % (P(), H())
+    if k < 0.35:
+        return "bytes=%s-%s" % (H(), P())
+    if k < 0.45:
+        return "bytes=%s-%s" % (H(), H())
+    if k < 0.6:
+        return "bytes=%s-" % H()
+    if k < 0.75:
+        return "bytes=-%s" % H()
+    if k < 0.8:
+        return rng.choice(["bytes=%s", "bytes=%s,0-1", "bytes=0-1,%s-", "bytes=0-1,-%s", "items=%s-", "%s-", "bytes=%s-7-"]) % H()
+    s = rng.choice([x for x in INVALID if "5" in x or "1" in x])
+    d = "5" if "5" in s else "1"
+    return s.replace(d, H(), 1)
+
+
 def gen_range(rng, n):
     k = rng.random()
     if k < 0.12:
         return None
+    if k < 0.15:
+        return gen_huge_range(rng, n)
     if k < 0.4:
         a, b = max(0, _pos(rng, n)), max(0, _pos(rng, n))
         z = rng.choice(["", "", "", "0", "000"])
@@ -160,6 +206,11 @@ def directed_cases():
                "bytes=254-254", "bytes=0-254", "bytes=0-", "bytes=-0", "bytes=300-", "bytes=7-3"]:
         yield {"size": 255, "range": rv, "cond": [], "method": "GET"}
     yield {"size": 0, "range": "bytes=0-", "cond": [], "method": "GET"}
+    # positions written with more digits than int() converts by default: 200/206/416 as for any other number, never 5xx
+    for rv in ["bytes=10-" + "9" * 5000, "bytes=" + "9" * 4301 + "-", "bytes=-" + "1" + "0" * 4300, "bytes=" + "0" * 4400 + "5-" + "0" * 4400 + "9",
+               "bytes=0-" + "9" * 4300, "bytes=+" + "9" * 5000 + "-", "bytes=1_" + "0" * 5000 + "-", "bytes=0-1," + "9" * 5000 + "-"]:
+        yield {"size": 255, "range": rv, "cond": [], "method": "GET"}
+    yield {"size": 10, "range": "bytes=2-" + "7" * 4301, "cond": [], "method": "HEAD"}
     yield {"size": 10, "range": "bytes=2-5", "cond": [("inm", "exact")], "method": "HEAD"}
     yield {"size": 10, "range": None, "cond": [("ims", 0)], "method": "GET"}
     yield {"size": 10, "range": None, "cond": [("ims", -1)], "method": "GET"}
@@ -178,6 +229,15 @@ def directed_cases():
 STRICT = re.compile(r"bytes=(?:([0-9]+)-([0-9]*)|-([0-9]+))\Z")
 
 
+def _num(digits):
+    """Value of a string of ASCII digits of any length (int() refuses more than sys.get_int_max_str_digits())."""
+    v = 0
+    for i in range(0, len(digits), 4000):
+        chunk = digits[i:i + 4000]
+        v = v * 10 ** len(chunk) + int(chunk)
+    return v
+
+
 def classify_range(value, n):
     """value: header value as a str after OWS trimming.  -> (class, a, b)
     class in none | ignore | range | unsat | unspec"""
@@ -186,6 +246,10 @@ def classify_range(value, n):
     v = value.strip(" \t")
     m = STRICT.match(v)
     if not m:
+        if re.fullmatch(r"bytes=[0-9]+", v):
+            # a bare number without "-": not a byte-range-spec, but the repository's own test-suite
+            # (web_test test_static_unsatisfiable_range_invalid_start) relies on it being read as "N-"
+            return ("unspec", None, None)
         mu = re.fullmatch(r"(?i)(bytes)=(.*)", v)
         if mu:
             parts = [p.strip(" \t") for p in mu.group(2).split(",")]
@@ -194,13 +258,13 @@ def classify_range(value, n):
                 return ("unspec", None, None)   # one well-formed spec; unit in another case and/or empty list elements
         return ("ignore", None, None)
     if m.group(3) is not None:
-        s = int(m.group(3))
+        s = _num(m.group(3))
         if s == 0 or n == 0:
             return ("unsat", None, None)
         return ("range", max(0, n - s), n - 1)
-    a = int(m.group(1))
+    a = _num(m.group(1))
     if m.group(2) != "":
-        b = int(m.group(2))
+        b = _num(m.group(2))
         if b < a:
             return ("unsat", None, None)       # inverted: RFC calls the spec invalid; 416 or ignore both accepted
         if a >= n:
@@ -375,7 +439,7 @@ def judge(ctx, case, r, F, rcls, cverdict, wit):
     m = re.fullmatch(rb"bytes ([0-9]+)-([0-9]+)/([0-9]+)", cr or b"")
     if not m:
         return bad("206-content-range-malformed", "206 without a well-formed Content-Range")
-    ga, gb, gn = int(m.group(1)), int(m.group(2)), int(m.group(3))
+    ga, gb, gn = _num(m.group(1).decode()), _num(m.group(2).decode()), _num(m.group(3).decode())
     if gn != n or ga > gb or gb >= n:
         return bad("206-content-range-inconsistent", "206 Content-Range does not describe a range of this file")
     if cl != str(gb - ga + 1).encode() or (not head_only and r.body != F[ga:gb + 1]):
@@ -400,6 +464,28 @@ def _ckind(case):
         return "inm-" + d["inm"]
     s = d.get("ims")
     return "ims-" + (str(s) if not isinstance(s, int) else ("past" if s < 0 else "now-or-future"))
+
+
+def _short(v):
+    """Witness form of a very long header value (the case itself keeps the full value for replay)."""
+    if v is None or len(v) <= 200:
+        return v
+    return "%s...<%d characters, longest digit run %d>...%s" % (v[:40], len(v), _maxrun(v), v[-24:])
+
+
+def _maxrun(v):
+    return max((len(x) for x in re.findall(r"[0-9]+", v or "")), default=0)
+
+
+def _count_huge(ctx, rv, rcls):
+    """Counters for positions written with very many digits (class by class, so an absent class is visible)."""
+    run = _maxrun(rv)
+    if run < 600:
+        return
+    ctx.count("huge_digit_range_evals")
+    if run > 4300:
+        ctx.count("huge_over_4300_digits_evals")
+        ctx.count("huge_over_4300_digits_" + ("strict_valid" if rcls[0] in ("range", "unsat") else "other"))
 
 
 def _rshape(v):
@@ -445,8 +531,9 @@ async def acase(case, ctx, sess):
     r = await do("GET")
     if r is False:
         return
-    wit = {"size": n, "range": rv, "cond_headers": headers, "range_class": list(rcls), "cond_verdict": cverdict,
-           "status": r.status if r else None, "content_range": r.get("content-range") if r else None,
+    _count_huge(ctx, rv, rcls)
+    wit = {"size": n, "range": _short(rv), "cond_headers": [(k, _short(v)) for k, v in headers], "range_class": [str(x)[:60] for x in rcls],
+           "cond_verdict": cverdict, "status": r.status if r else None, "content_range": r.get("content-range") if r else None,
            "content_length": r.get("content-length") if r else None, "body_len": len(r.body) if r else None}
     if not webrig.safety(ctx, sess, r, "static range request"):
         return
@@ -606,7 +693,9 @@ async def ahistory(case, ctx0, sess):
         r = await do(first, headers)
         if r is False:
             return False
-        wit = {"size": n, "range": rv, "cond_headers": headers, "range_class": list(rcls), "cond_verdict": cverdict, "method": first,
+        _count_huge(ctx, rv, rcls)
+        wit = {"size": n, "range": _short(rv), "cond_headers": [(k, _short(v)) for k, v in headers], "range_class": [str(x)[:60] for x in rcls],
+               "cond_verdict": cverdict, "method": first,
                "status": r.status if r else None, "content_range": r.get("content-range") if r else None,
                "content_length": r.get("content-length") if r else None, "body_len": len(r.body) if r else None,
                "previous_version": prev and {"size": prev[2], "mtime": prev[1]}, "mtime": mtime, "history": h}
